@@ -164,7 +164,12 @@ def run_c01(rep, tier):
 # ------------------------------------------------------------------ C02 / C03
 def ltl_sets(tier):
     lv = formulas.ltl_paths(3 if True else 2)
-    quick = ['A %s' % formulas.par(g) for g in formulas.ATOMS4 + formulas.ltl_level1(formulas.ATOMS4) + lv[2]]
+    nary = ['(p or q or X p)', '(p and q and X q)', '(p or q or (not p))', '(p and (not p) and q)', 'G (p or q or X p)', 'X (p and q and F p)', '((p or q or X q) U (p and q and p))',
+            '(F p or G q or X p)', '(p or q or p or X q)', 'not (p and q and G p)', 'G ((not p) or (not q) or X p)', '(p and q and (p U q))']
+    un = formulas.LTL_UN
+    chains = [u1 % formulas.par(u2 % formulas.par(u3 % a)) for u1 in un for u2 in un for u3 in un for a in ('p', 'q')]
+    chains += [u1 % formulas.par(u2 % (b % ab)) for u1 in un for u2 in un for b in formulas.LTL_BI for ab in (('p', 'q'), ('q', 'p'))]
+    quick = ['A %s' % formulas.par(g) for g in formulas.ATOMS4 + formulas.ltl_level1(formulas.ATOMS4) + lv[2] + nary + chains]
     r = rng('ltl-e3')
     deep = r.sample(lv[3], 400)
     return quick, ['A %s' % formulas.par(g) for g in deep]
@@ -483,8 +488,8 @@ def absorb_aspects(rep, pid, t, recs, aspects, describe):
             if a in ('verdict', 'noexc', 'isset', 'recall', 'recall_same'):
                 body = ("got = run(%r, %r, K)\nwant = explicit.sat_states(explicit.Struct(n, R, L), CTLS.Parser()(%r))\n"
                         "print('modelcheck ->', got, '; reference ->', want)\nbad = [] if (isinstance(got, set) and norm(got) == want) else ['result %%r, reference %%r' %% (got, want)]\n"
-                        "r2 = run(%r, %r, K)\nif isinstance(got, set):\n    got.clear(); got.add('junk')\n    r3 = run(%r, %r, K)\n    if r3 != r2: bad.append('result changed after mutating the first result: %%r -> %%r' %% (r2, r3))\n"
-                        % (rec['logic'], rec['formula'], fm, rec['logic'], rec['formula'], rec['logic'], rec['formula']))
+                        "if isinstance(got, set):\n    first = set(got)\n    got.clear(); got.add('junk')\n    r3 = run(%r, %r, K)\n    if r3 != first: bad.append('a later call changed after the caller mutated the first result: %%r -> %%r' %% (first, r3))\n"
+                        % (rec['logic'], rec['formula'], fm, rec['logic'], rec['formula']))
             elif a == 'pure':
                 body = ("got = run(%r, %r, K)\nafter = str(sorted(map(repr, K.transitions()))) + str({repr(s): sorted(map(repr, K.labels(s))) for s in K.states()}) + repr(sorted(map(repr, K.S0)))\n"
                         "bad = [] if after == before else ['structure changed: %%s -> %%s' %% (before, after)]\n" % (rec['logic'], rec['formula']))
@@ -547,9 +552,16 @@ def run_c04(rep, tier):
                               'the common fragment, text vs object input, and the semantic laws (complement, and/or/implies, A g = not E not g, fixpoint expansions) as identities between vectors')
     shared3 = ['A X p', 'A G p', 'A F p', 'A(p U q)', 'A(p R q)', 'A G (p or q)', 'A F (p and q)', 'A X (not p)', 'A((not p) U q)', 'A G (p --> q)']
     ltl3 = ['A X p', 'A G p', 'A F p', 'A (p U q)', 'A (p R q)', 'A G (p or q)', 'A F (p and q)', 'A X (not p)', 'A ((not p) U q)', 'A G (p --> q)']
+    nary = ['A G (p or q or (not p))', 'A X (p and q and (not q))', 'A F (p and q and p)', 'A G (q or (not q) or p)', 'A ((p or q or (not p)) U (p and q and p))',
+            'A G (p --> (q or p or (not q)))', 'A X (p or (not p) or q or (not q))']
+    shared3 = shared3 + nary
+    ltl3 = ltl3 + nary
     tasks = []
     for c, l in zip(shared3, ltl3):
         tasks.append(('LTL', 2, [l], dict(also=['CTL', 'CTLS'], also_text={'CTL': c, 'CTLS': c}, as_text=True)))
+    nary3 = ['A G (p or q or r)', 'A X (p and q and r)', 'A F (p and q and r)', 'A ((p or q or r) U (p and q and r))', 'A G (r or q or p)', 'A ((p and q and r) R (p or q or r))']
+    for x in nary3:
+        tasks.append(('LTL', 2, [x], dict(also=['CTL', 'CTLS'], as_text=True, aps=('p', 'q', 'r'))))
     ctlf = formulas.ctl_phi1()[4::2] + formulas.ctl_pairs()[::5]
     if tier == 'thorough':
         ctlf = formulas.ctl_phi1()[4:] + formulas.ctl_pairs()[::2] + formulas.ctl_phi2_quick()[::5]
@@ -753,6 +765,13 @@ def run_c05(rep, tier):
     paths += ['(%s and %s and %s)' % (x, y, z) for x in one_each[::2] for y in one_each[1::3] for z in one_each[2::4]]
     paths += ['(%s or %s or %s)' % (x, y, z) for x in one_each[1::2] for y in one_each[::3] for z in one_each[3::4]]
     paths += ['((p or q) or (q or r) or p)', '((p and q) and (r and p) and (q and r))', '(((p or q) or r) or (p or (q or r)))']
+    # operator over two operators with pairwise DISTINCT atoms (a rewriting that loses or swaps an operand cannot hide behind a repeated atom)
+    bi3 = ['(%s and %s)', '(%s or %s)', '(%s --> %s)', '(%s U %s)', '(%s R %s)']
+    for b1 in bi3:
+        for b2 in bi3:
+            for b3 in bi3:
+                paths.append(b1 % (b2 % ('p', 'q'), b3 % ('r', 's')))
+    paths += ['((p or q) or (r or s) or (X p or X r))', '((p and q) and (r and s) and (F p and G s))', '(not (p or q) or not (r or s))', '((p or q) or not (r or s))']
     paths += ['((p U q) R r)', '(F p --> G (q or X r))', '(p and q and r)', '(p or q or r)', 'not (p and not q and X r)', 'G F p', 'F G (p --> q)', '((p R q) U (q R r))']
     ctl = formulas.ctl_phi1() + formulas.ctl_pairs()[::(3 if tier == 'quick' else 1)] + formulas.ctl_phi2_quick()[::(9 if tier == 'quick' else 2)]
     ctl_one = ['not p', 'A X p', 'E F q', 'A G q', '(p and q)', '(q or p)', '(p --> q)', 'A(p U q)', 'E(q R p)', 'E G p', 'A F q']
@@ -760,9 +779,15 @@ def run_c05(rep, tier):
         ctl += [b % (formulas.par(x), formulas.par(y)) for x in ctl_one for y in ctl_one[::(2 if tier == 'quick' else 1)]]
     ctl += ['(%s or %s or %s)' % (formulas.par(x), formulas.par(y), formulas.par(z)) for x in ctl_one[::3] for y in ctl_one[1::3] for z in ctl_one[2::3]]
     ctl += ['((p or q) or (q or p) or p)', '((p and q) and (q and p))', '(((p or q) or p) or (p or (q or p)))']
+    cb = ['(%s and %s)', '(%s or %s)', '(%s --> %s)']
+    for b1 in cb:
+        for b2 in cb:
+            for b3 in cb:
+                ctl.append(b1 % (b2 % ('p', 'E X q'), b3 % ('A F q', 'E G p')))
+                ctl.append(b1 % (b2 % ('A X p', 'q'), b3 % ('E (p U q)', 'A (q R p)')))
     ctl += ['not not E X p', 'not not not A G p', '(p and q and A X p)', '(p or q or E G p)', 'not (p and not q)']
     ctls_state = ctls_set(tier)[::(2 if tier == 'quick' else 1)] + ['not not A F p', 'not not not E (p U q)']
-    tasks = [('CTL', ch) for ch in chunks(ctl, 12)] + [('CTLS', ch) for ch in chunks(ctls_state, 6)] + [('CTLS', ch) for ch in chunks(paths, 10)] + [('LTL', ch) for ch in chunks(paths, 10)]
+    tasks = [('CTL', ch) for ch in chunks(ctl, 12)] + [('CTLS', ch) for ch in chunks(ctls_state, 6)] + [('CTLS', ch, 3, 5, ('p', 'q', 'r', 's')) for ch in chunks(paths, 10)] + [('LTL', ch, 3, 5, ('p', 'q', 'r', 's')) for ch in chunks(paths, 10)]
     rep.cov['bounds'].update(n=3, lasso_positions=5, formulas=dict(CTL=len(ctl), CTLS_state=len(ctls_state), CTLS_path=len(paths), LTL_path=len(paths)))
     done = 0
     for t, st, recs, secs in pmap(rewrite.rewrite_task, tasks):
